@@ -189,13 +189,29 @@ Definition run_deser (s : bytes) : obs :=
 Definition run_store (d : tagdict) : obs :=
   match deserialize (serialize d) with Some d' => odict_sorted d' | None => OE "error" end.
 
-(* how the destination keeps a dict: native = through the tags file *)
-Definition stored (native : bool) (d : tagdict) : option tagdict :=
-  if native then deserialize (serialize d) else Some d.
+(* how a destination keeps the dict handed to _set_tag_dict, as read back by get_tag_dict:
+     DMem     MemoryTags._set_tag_dict: dict(result.items())
+     DNative  BasicTags: through the bencode tags file
+     DGit cs  LocalGitTagDict._set_tag_dict: set_tag per entry, where a revision id that is not a
+              commit of the repository (cs = its commits) raises GhostTagsNotSupported, which
+              _set_tag_dict SUPPRESSES: such a tag is silently not stored
+              (known finding C24-git-ghost-tag-reported-not-stored) *)
+Inductive dest_store : Type := DMem | DNative | DGit (commits : list bytes).
 
-Definition transfer_obs (native : bool) (out : tagdict * option tagdict * tagdict * list conflict) : obs :=
+Definition git_keeps (commits : list bytes) (kv : bytes * bytes) : bool :=
+  existsb (bytes_eqb (snd kv)) commits.
+
+Definition stored (ds : dest_store) (d : tagdict) : option tagdict :=
+  match ds with
+  | DMem => Some d
+  | DNative => deserialize (serialize d)
+  | DGit commits => Some (filter (git_keeps commits) d)
+  end.
+
+(* a master branch exists only for bound native branches *)
+Definition transfer_obs (ds : dest_store) (out : tagdict * option tagdict * tagdict * list conflict) : obs :=
   let '(r, m, u, c) := out in
-  match stored native r, match m with Some md => option_map Some (stored native md) | None => Some None end with
+  match stored ds r, match m with Some md => option_map Some (stored DNative md) | None => Some None end with
   | Some r', Some m' =>
       OL [odict_sorted r'; oopt odict_sorted m'; odict_sorted u; OL (map oconf (sort_confs c))]
   | _, _ => OE "error"
@@ -203,8 +219,8 @@ Definition transfer_obs (native : bool) (out : tagdict * option tagdict * tagdic
 
 (* inter = true: InterTags.merge / InterTagsFromGitToNonGit.merge; false: MemoryTags.merge_to /
    InterTagsFromGitToLocalGit.merge *)
-Definition run_transfer (inter native : bool) (src dst : tagdict) (master : option tagdict)
+Definition run_transfer (inter : bool) (ds : dest_store) (src dst : tagdict) (master : option tagdict)
                         (ignore_master ov : bool) (sel : option (bytes -> bool)) : obs :=
-  transfer_obs native
+  transfer_obs ds
     (if inter then merge_inter src dst master ignore_master ov sel
      else merge_memsrc src dst master ov sel).
